@@ -35,7 +35,8 @@ def plan(tier, seed):
                     units.append({'kind': 'session', 'proto': proto, 'mutual': mutual, 'inter': depth - 1,
                                   'schedules': 4 if tier == 'quick' else 6, 'weight': 3})
         for proto in ('tlcp', 'tls12', 'tls13'):
-            units.append({'kind': 'independent-peer', 'proto': proto, 'inter': rep % 3, 'reps': 6 if tier == 'quick' else 12, 'weight': 3})
+            for mutual in (False, True):
+                units.append({'kind': 'independent-peer', 'proto': proto, 'mutual': mutual, 'inter': rep % 3, 'reps': 4 if tier == 'quick' else 12, 'weight': 3})
     return units
 
 
@@ -343,12 +344,14 @@ def u_independent_peer(ctx, u):
     pname = u['proto']
     proto = T.PROTOS[pname]
     creds = T.Creds(ctx, 'c08i-%d' % u['_i'], u.get('inter', 1))
-    srv_ctx, cli_ctx = T.pair_ctx(ctx, creds, proto, False)
+    mutual = bool(u.get('mutual'))
+    srv_ctx, cli_ctx = T.pair_ctx(ctx, creds, proto, mutual)
+    cli_chain = [creds.cli_cert] + list(reversed(creds.pki.inters))
     base = T.run_handshake(ctx, srv_ctx, cli_ctx, seed=rng.randrange(1, 1 << 30), use_proxy=True)
     ok = base['server'].ret == 1 and base['client'].ret == 1
     ch = [r for i, d, r in base['proxy'].records if d == 'c>s' and r[0] == T.REC_HANDSHAKE and r[5] == 1]
     T.close_pair(base)
-    if not ctx.check(ok and ch, 'handshake:honest-peers-failed:%s:server-auth' % pname, phase='baseline for the independent peer'):
+    if not ctx.check(ok and ch, 'handshake:honest-peers-failed:%s:%s' % (pname, 'mutual' if mutual else 'server-auth'), phase='baseline for the independent peer'):
         return
     for rep in range(u['reps']):
         c_end, s_end = socket.socketpair()
@@ -364,11 +367,18 @@ def u_independent_peer(ctx, u):
                 cl = H13.Client(c_end, ch[0], rng.randrange(1, R.N - 1))
                 fin_ok = cl.start()
                 if fin_ok:
+                    if mutual:
+                        cl.send_hs(H13.certificate_msg(cli_chain))
+                        cl.send_hs(H13.certificate_verify_msg(creds.cli_priv, cl.transcript, k=rng.randrange(1, R.N - 1)))
                     cl.send_hs(cl.finished_msg())
             else:
                 cl = HT.Client(c_end, ch[0], R.pub(creds.enc_priv), rng) if pname == 'tlcp' else HT.Client12(c_end, ch[0], rng)
                 if cl.start():
+                    if mutual:
+                        cl.send_plain(HT.certificate_msg(cli_chain))
                     cl.send_plain(cl.client_key_exchange())
+                    if mutual:
+                        cl.send_plain(cl.certificate_verify(creds.cli_priv))
                     cl.change_cipher_spec()
                     cl.finished()
                     fin_ok = cl.read_server_finished()
@@ -377,7 +387,7 @@ def u_independent_peer(ctx, u):
         except (OSError, ValueError) as e:
             note = 'peer: %s' % e
         th.join(90)
-        det = dict(proto=pname, rep=rep, note=note, peer_log=getattr(cl, 'log', None))
+        det = dict(proto=pname, mutual=mutual, rep=rep, note=note, peer_log=getattr(cl, 'log', None))
         if th.is_alive() or (note and 'timed out' in note):
             # wall-clock limits are watchdogs, not verdicts: a starved machine makes this session inconclusive
             ctx.stat('independent_peer_sessions_timed_out')
@@ -424,7 +434,7 @@ def u_independent_peer(ctx, u):
                   got=repr(r)[:60], **det)
         ctx.check(got_down == down, 'independent-peer:server-data-does-not-unprotect-under-standard-keys:' + pname, sent_len=len(down),
                   got_len=None if got_down is None else len(got_down), **det)
-        ctx.nontrivial('independent-peer', pname, rep, len(up), len(down))
+        ctx.nontrivial('independent-peer', pname, mutual, rep, len(up), len(down))
         ctx.stat('independent_peer_sessions')
         for sk in (c_end, s_end):
             try:
